@@ -84,6 +84,74 @@ theorem c14_dns_query_name_v0_counterexample :
     Dns.queryNameV0 (Dns.newQuestion [0xff]) = .error (.panic "panic:unwrap:dns_query_name") := by
   decide
 
+/-- `DnsServer::respond_to_query` (current code) on ANY datagram: a reply is sent or the task ends
+    with a logged error; no panic site is reached -/
+theorem c14_dns_server_respond_total (d : Bytes) : NoPanic (Dns.serverRespond d) := by
+  have h := c14_dns_total (d.take 80)
+  unfold Dns.serverRespond
+  cases hr : Dns.fromBytes (d.take 80) with
+  | error e =>
+    cases e with
+    | panic s => exact absurd hr (h s)
+    | _ => exact noPanic_ok _
+  | ok p =>
+    obtain ⟨m, r⟩ := p
+    dsimp only
+    have hq := c14_dns_query_name_total m.question
+    cases hn : Dns.queryName m.question with
+    | error e =>
+      cases e with
+      | panic s => exact absurd hn (hq s)
+      | _ => exact noPanic_ok _
+    | ok name =>
+      dsimp only
+      cases Dns.serverTable.lookup name <;> exact noPanic_ok _
+
+/-- the response handling of `DnsClient::get_host_by_name` (current code) on ANY response
+    datagram: `Ok(address)` or `Err(DnsClientError)`; no panic site is reached -/
+theorem c14_dns_client_handle_total (name resp : Bytes) : NoPanic (Dns.clientHandle name resp) := by
+  have h := c14_dns_total resp
+  unfold Dns.clientHandle
+  cases hr : Dns.fromBytes resp with
+  | error e =>
+    cases e with
+    | panic s => exact absurd hr (h s)
+    | _ => exact noPanic_ok _
+  | ok p =>
+    obtain ⟨m, r⟩ := p
+    dsimp only
+    split
+    · split
+      · split <;> exact noPanic_ok _
+      · exact noPanic_ok _
+    · exact noPanic_ok _
+
+/-- before the fix (F-C14-4): a truncated query, a query name that is not UTF-8 and a query for
+    an unknown name each panicked the DNS server; a truncated response, an answer name that is
+    not UTF-8, a record shorter than 4 bytes and an answer for another name each panicked the
+    client.  (12 header bytes, `name SP type class`, `name SP type class ttl rdlength rdata`.) -/
+theorem c14_dns_responder_v0_counterexample :
+    Dns.serverRespondV0 [1, 2, 3] = .error (.panic "panic:unwrap:dns_server_from_bytes")
+    ∧ Dns.serverRespondV0 (Dns.toMessage { Dns.example1 with question := Dns.newQuestion [0xff] })
+        = .error (.panic "panic:unwrap:dns_server_query_name")
+    ∧ Dns.serverRespondV0 (Dns.toMessage { Dns.example1 with question := Dns.newQuestion [0x78] })
+        = .error (.panic "panic:unwrap:dns_server_task")
+    ∧ Dns.clientHandleV0 [0x78] [] = .error (.panic "panic:unwrap:dns_client_from_bytes")
+    ∧ Dns.clientHandleV0 [0x78] (Dns.toMessage { Dns.example1 with answer := Dns.newRecord [0xff] 0 1 })
+        = .error (.panic "panic:unwrap:dns_client_answer_name")
+    ∧ Dns.clientHandleV0 [0x78] (Dns.toMessage { Dns.example1 with
+          answer := { Dns.newRecord [0x78] 0 1 with rdlength := 3, rdata := [1, 2, 3] } })
+        = .error (.panic "panic:index:dns_client_rdata")
+    ∧ Dns.clientHandleV0 [0x78] (Dns.toMessage { Dns.example1 with answer := Dns.newRecord [0x79] 0 1 })
+        = .error (.panic "panic:unwrap:dns_client_get_mapping") := by
+  decide
+
+/-- non-vacuity: a well-formed exchange still resolves -/
+example : Dns.serverRespond (Dns.toMessage Dns.example1)
+    = .ok (some (Dns.toMessage (Dns.createResponse Dns.example1 2066563900))) := by decide
+example : Dns.clientHandle Dns.example1.question.qname
+    (Dns.toMessage (Dns.createResponse Dns.example1 2066563900)) = .ok (some 2066563900) := by decide
+
 /-! ## DHCP -/
 
 theorem noPanic_msgTypeTryFrom (t : Nat) : NoPanic (Dhcp.msgTypeTryFrom t) := by
